@@ -396,9 +396,32 @@ def main():
             nfail, out = replay_artifact(rb, dest, exclude, prop.get("confirm_replays", 2),
                                          j.spec.get("env"))
         need = prop.get("confirm_needed", 1)
+        if nfail < need and prop.get("rerun_job_when_unreproduced") and j.kind == "rc":
+            # the failure may depend on state the process accumulated over its earlier cases
+            # (a counter inside a lock, say): the reproducible unit is then the whole job. It is
+            # run again, same seed, same case count; a second failure confirms.
+            import copy
+            for attempt in range(2):
+                j2 = copy.copy(j)
+                j2.tag = f"{j.tag}-rerun{attempt}"
+                j2.stats = os.path.join(j.workdir, f"{j2.tag}.stats.json")
+                j2.art = os.path.join(j.workdir, f"{j2.tag}-")
+                j2.run()
+                if j2.artifacts() or j2.rc not in (0,):
+                    cmd2, env2 = j2.command()
+                    with open(dest + ".job.txt", "w") as fh:
+                        fh.write("# the case fails only after the cases generated before it in the same process;\n"
+                                 "# to reproduce, run the whole job again:\n"
+                                 f"RC_PARAMS='{env2.get('RC_PARAMS', '')}' {' '.join(cmd2)}\n")
+                    nfail = need
+                    out = (f"the single case does not fail on its own, but the whole job (same seed) failed "
+                           f"again when repeated (attempt {attempt + 1}); see {os.path.basename(dest)}.job.txt\n") + \
+                        j2.out[-3000:]
+                    break
         if nfail >= need:
             confirmed.append((dest, out))
         else:
+            log(f"[{pid}] note: failure {os.path.basename(dest)} of job {j.tag} did not reproduce")
             total.setdefault("unreproduced", []).append(os.path.basename(dest))
             if not prop.get("tolerate_unreproduced"):
                 # deterministic harness: a failure that does not replay is still
